@@ -22,7 +22,7 @@ type c20 struct{ base }
 
 func init() {
 	runner.Register(&c20{base{id: "C20", level: "exploration",
-		rule: "exhaustive: all subsets of <=2 registrations (thorough <=3) from a pool of (table in {tba,tbb}) x (kind in {key, filter, conditional, update}) x (text pool with anagram pairs 'a = :b' / 'b = :a', 'SET x = :y' / 'SET y = :x', prefix pairs, letter-case pairs, surrounding- and interior-whitespace variants) x every request over the same pool x native mode on/off x interpreter installed before/after CreateTable, both adapters. Callbacks are instrumented: each records its identity and returns the OPPOSITE of what the built-in interpreter yields. Oracle: the set of callbacks that ran = {the one registered for exactly this table, kind and text (up to surrounding whitespace; interior whitespace amount: either)} or empty; the operation's outcome = that callback's verdict / mutation; with no matcher the built-in result; with no updater an unsupported-feature error and an untouched item; native mode off: no callback runs. non-trivial = at least one registration differs from the request in exactly one of table / kind / text; distinct by (adapter, registration set, request, mode, order).",
+		rule:        "exhaustive: all subsets of <=2 registrations (thorough <=3) from a pool of (table in {tba,tbb}) x (kind in {key, filter, conditional, update}) x (text pool with anagram pairs 'a = :b' / 'b = :a', 'SET x = :y' / 'SET y = :x', prefix pairs, letter-case pairs, surrounding- and interior-whitespace variants) x every request over the same pool x native mode on/off x interpreter installed before/after CreateTable, both adapters. Callbacks are instrumented: each records its identity and returns the OPPOSITE of what the built-in interpreter yields. Oracle: the set of callbacks that ran = {the one registered for exactly this table, kind and text (up to surrounding whitespace; interior whitespace amount: either)} or empty; the operation's outcome = that callback's verdict / mutation; with no matcher the built-in result; with no updater an unsupported-feature error and an untouched item; native mode off: no callback runs. non-trivial = at least one registration differs from the request in exactly one of table / kind / text; distinct by (adapter, registration set, request, mode, order).",
 		assumptions: commonAssumptions}})
 }
 
@@ -135,7 +135,7 @@ func nativeOf(cl adapt.Client) nativeClient {
 // scenario: item {a:"1", b:"2"}; values :b=:a=:bb="zz" so every built-in condition of the pool is
 // FALSE on the item ('a = :b AND b = :a' too); callbacks return TRUE. Updates: built-in SET x = :y
 // sets x; the callback sets attribute "cb" to its own id instead.
-func (p *c20) runOne(x *res, adapter string, regs []int, req c20Req, nativeOn bool, installAfterCreate bool, ctx *runner.Ctx) {
+func (p *c20) runSeq(x *res, adapter string, regs []int, reqs []c20Req, nativeOn bool, installAfterCreate bool, ctx *runner.Ctx) {
 	cl := adapt.New(adapter)
 	nc := nativeOf(cl)
 	native := interpreter.NewNativeInterpreter()
@@ -179,154 +179,169 @@ func (p *c20) runOne(x *res, adapter string, regs []int, req c20Req, nativeOn bo
 		// unconditional puts never consult a matcher
 		cl.Do(adapt.Op{Kind: adapt.OpPut, Table: s.Name, Item: item})
 	}
-	for k := range ran {
-		delete(ran, k)
-	}
-	values := val.Item{}
-	for _, t := range tokenize(req.text) {
-		if strings.HasPrefix(t, ":") {
-			values[t] = val.Str("zz")
+	for ri, req := range reqs {
+		seqTag := ""
+		if ri > 0 {
+			seqTag = "/second-request"
 		}
-	}
-	var op adapt.Op
-	switch req.kind {
-	case "key":
-		op = adapt.Op{Kind: adapt.OpQuery, Table: req.table, KeyCnd: req.text, Values: values}
-	case "filter":
-		op = adapt.Op{Kind: adapt.OpScan, Table: req.table, Filter: req.text, Values: values}
-	case "conditional":
-		it2 := item.Clone()
-		it2["marker"] = val.Str("written")
-		op = adapt.Op{Kind: adapt.OpPut, Table: req.table, Item: it2, Cond: req.text, Values: values}
-	case "update":
-		op = adapt.Op{Kind: adapt.OpUpdate, Table: req.table, Key: val.Item{"h": val.Str("k")}, Update: req.text, Values: values}
-	}
-	ctx.Trace("%s native=%v after=%v regs=%v %s", adapter, nativeOn, installAfterCreate, regs, op.String())
-	got := cl.Do(op)
-	x.r.Evals++
-	after := cl.Do(adapt.Op{Kind: adapt.OpGet, Table: req.table, Key: val.Item{"h": val.Str("k")}})
-	// expectation
-	must, may := -1, map[int]bool{}
-	mustSet := map[int]bool{} // several registrations may normalise to the same text: the last one wins, any is admitted
-	near := false
-	for _, ri := range regs {
-		rg := c20PoolCache[ri]
-		same := 0
-		if rg.table == req.table {
-			same++
+		// restore the item so that every request of the sequence starts from the same state
+		for _, s := range specs {
+			saveOn := ran
+			_ = saveOn
+			cl.Do(adapt.Op{Kind: adapt.OpDelete, Table: s.Name, Key: val.Item{"h": val.Str("k")}})
+			cl.Do(adapt.Op{Kind: adapt.OpPut, Table: s.Name, Item: item})
 		}
-		if rg.kind == req.kind {
-			same++
-		}
-		if normAll(rg.text) == normAll(req.text) {
-			same++
-		}
-		if same == 2 {
-			near = true
-		}
-		if rg.table != req.table || rg.kind != req.kind {
-			continue
-		}
-		if normSurround(rg.text) == normSurround(req.text) {
-			must = ri
-			mustSet[ri] = true
-		} else if normAll(rg.text) == normAll(req.text) {
-			may[ri] = true // differs only in the amount of interior whitespace: either reading admitted
-		}
-	}
-	if !nativeOn {
-		must, may, mustSet = -1, map[int]bool{}, map[int]bool{}
-	}
-	ranList := []int{}
-	for k := range ran {
-		ranList = append(ranList, k)
-	}
-	sort.Ints(ranList)
-	x.fp(near || len(regs) == 0, "%s|%v|%s|%s|%q|%v|%v", adapter, regs, req.table, req.kind, req.text, nativeOn, installAfterCreate)
-	desc := func(i int) string {
-		if i < 0 {
-			return "none"
-		}
-		rg := c20PoolCache[i]
-		return fmt.Sprintf("(%s,%s,%q)", rg.table, rg.kind, rg.text)
-	}
-	regDesc := []string{}
-	for _, ri := range regs {
-		regDesc = append(regDesc, desc(ri))
-	}
-	wit := map[string]interface{}{"adapter": adapter, "registrations": regDesc, "request": req, "native_on": nativeOn, "installed_after_create": installAfterCreate, "callbacks_ran": ranList, "outcome": got, "item_after": after.Item}
-	if got.Class == adapt.ClsRuntime {
-		x.viol("runtime-panic", got.Site, fmt.Sprintf("[%s] request %v: panic at %s: %s", adapter, req, got.Site, got.Msg), wit)
-		return
-	}
-	// which callbacks ran
-	fired := -1
-	for _, ri := range ranList {
-		if mustSet[ri] || may[ri] {
-			fired = ri
-			continue
-		}
-		rg := c20PoolCache[ri]
-		why := "text"
-		if rg.table != req.table {
-			why = "table"
-		} else if rg.kind != req.kind {
-			why = "kind"
-		} else if !nativeOn {
-			why = "native-off"
-		} else if strings.EqualFold(normAll(rg.text), normAll(req.text)) {
-			why = "text-case"
-		} else if sortedChars(rg.text) == sortedChars(req.text) {
-			why = "text-anagram"
-		}
-		x.viol("wrong-callback-fired", why, fmt.Sprintf("[%s] request %s/%s %q (native=%v) ran the callback registered for %s", adapter, req.table, req.kind, req.text, nativeOn, desc(ri)), wit)
-		return
-	}
-	if must >= 0 && fired < 0 {
-		x.viol("registered-callback-not-fired", req.kind+fmt.Sprintf("/after-create=%v", installAfterCreate), fmt.Sprintf("[%s] request %s/%s %q did not run the callback registered for %s (ran %v)", adapter, req.table, req.kind, req.text, desc(must), ranList), wit)
-		return
-	}
-	// outcome
-	cbVerdict := fired >= 0
-	switch req.kind {
-	case "key", "filter":
-		wantN := 0
-		if cbVerdict {
-			wantN = 1
-		}
-		if got.Class != adapt.ClsOK || len(got.Items) != wantN {
-			x.viol("verdict-not-used", req.kind, fmt.Sprintf("[%s] %s %q: class %s, %d items; expected %d (callback fired: %v; built-in result false)", adapter, req.kind, req.text, got.Class, len(got.Items), wantN, cbVerdict), wit)
-		}
-	case "conditional":
-		want := adapt.ClsCondFailed
-		if cbVerdict {
-			want = adapt.ClsOK
-		}
-		if got.Class != want {
-			x.viol("verdict-not-used", req.kind, fmt.Sprintf("[%s] conditional put %q: class %s, expected %s (callback fired: %v)", adapter, req.text, got.Class, want, cbVerdict), wit)
-		}
-	case "update":
-		switch {
-		case fired >= 0:
-			want := item.Clone()
-			want["cb"] = val.Str(fmt.Sprintf("cb%d", fired))
-			if got.Class != adapt.ClsOK || !val.ItemsEqual(after.Item, want) {
-				x.viol("mutation-not-used", "update", fmt.Sprintf("[%s] update %q: class %s, item %s; expected the registered updater's mutation %s", adapter, req.text, got.Class, after.Item.Canon(), want.Canon()), wit)
+		func() {
+			for k := range ran {
+				delete(ran, k)
 			}
-		case nativeOn:
-			if got.Class != adapt.ClsUnsupported {
-				x.viol("missing-updater-not-unsupported", got.Class, fmt.Sprintf("[%s] update %q without registered updater in native mode: class %s, want the unsupported-feature error", adapter, req.text, got.Class), wit)
-			} else if !val.ItemsEqual(after.Item, item) {
-				x.viol("failed-update-touched-item", "update", fmt.Sprintf("[%s] update %q failed but the item changed to %s", adapter, req.text, after.Item.Canon()), wit)
-			}
-		default:
-			// built-in interpreter: the pool's updates are valid ("set x = :y" in lower case is not)
-			if strings.HasPrefix(strings.TrimSpace(req.text), "SET") {
-				if got.Class != adapt.ClsOK {
-					x.viol("builtin-fallback-failed", "update", fmt.Sprintf("[%s] update %q with native mode off: class %s", adapter, req.text, got.Class), wit)
+			values := val.Item{}
+			for _, t := range tokenize(req.text) {
+				if strings.HasPrefix(t, ":") {
+					values[t] = val.Str("zz")
 				}
 			}
-		}
+			var op adapt.Op
+			switch req.kind {
+			case "key":
+				op = adapt.Op{Kind: adapt.OpQuery, Table: req.table, KeyCnd: req.text, Values: values}
+			case "filter":
+				op = adapt.Op{Kind: adapt.OpScan, Table: req.table, Filter: req.text, Values: values}
+			case "conditional":
+				it2 := item.Clone()
+				it2["marker"] = val.Str("written")
+				op = adapt.Op{Kind: adapt.OpPut, Table: req.table, Item: it2, Cond: req.text, Values: values}
+			case "update":
+				op = adapt.Op{Kind: adapt.OpUpdate, Table: req.table, Key: val.Item{"h": val.Str("k")}, Update: req.text, Values: values}
+			}
+			ctx.Trace("%s native=%v after=%v regs=%v %s", adapter, nativeOn, installAfterCreate, regs, op.String())
+			got := cl.Do(op)
+			x.r.Evals++
+			after := cl.Do(adapt.Op{Kind: adapt.OpGet, Table: req.table, Key: val.Item{"h": val.Str("k")}})
+			// expectation
+			must, may := -1, map[int]bool{}
+			mustSet := map[int]bool{} // several registrations may normalise to the same text: the last one wins, any is admitted
+			near := false
+			for _, ri := range regs {
+				rg := c20PoolCache[ri]
+				same := 0
+				if rg.table == req.table {
+					same++
+				}
+				if rg.kind == req.kind {
+					same++
+				}
+				if normAll(rg.text) == normAll(req.text) {
+					same++
+				}
+				if same == 2 {
+					near = true
+				}
+				if rg.table != req.table || rg.kind != req.kind {
+					continue
+				}
+				if normSurround(rg.text) == normSurround(req.text) {
+					must = ri
+					mustSet[ri] = true
+				} else if normAll(rg.text) == normAll(req.text) {
+					may[ri] = true // differs only in the amount of interior whitespace: either reading admitted
+				}
+			}
+			if !nativeOn {
+				must, may, mustSet = -1, map[int]bool{}, map[int]bool{}
+			}
+			ranList := []int{}
+			for k := range ran {
+				ranList = append(ranList, k)
+			}
+			sort.Ints(ranList)
+			x.fp(near || len(regs) == 0, "%s|%v|%s|%s|%q|%v|%v", adapter, regs, req.table, req.kind, req.text, nativeOn, installAfterCreate)
+			desc := func(i int) string {
+				if i < 0 {
+					return "none"
+				}
+				rg := c20PoolCache[i]
+				return fmt.Sprintf("(%s,%s,%q)", rg.table, rg.kind, rg.text)
+			}
+			regDesc := []string{}
+			for _, ri := range regs {
+				regDesc = append(regDesc, desc(ri))
+			}
+			wit := map[string]interface{}{"adapter": adapter, "registrations": regDesc, "request": req, "native_on": nativeOn, "installed_after_create": installAfterCreate, "callbacks_ran": ranList, "outcome": got, "item_after": after.Item}
+			if got.Class == adapt.ClsRuntime {
+				x.viol("runtime-panic", got.Site, fmt.Sprintf("[%s] request %v: panic at %s: %s", adapter, req, got.Site, got.Msg), wit)
+				return
+			}
+			// which callbacks ran
+			fired := -1
+			for _, ri := range ranList {
+				if mustSet[ri] || may[ri] {
+					fired = ri
+					continue
+				}
+				rg := c20PoolCache[ri]
+				why := "text"
+				if rg.table != req.table {
+					why = "table"
+				} else if rg.kind != req.kind {
+					why = "kind"
+				} else if !nativeOn {
+					why = "native-off"
+				} else if strings.EqualFold(normAll(rg.text), normAll(req.text)) {
+					why = "text-case"
+				} else if sortedChars(rg.text) == sortedChars(req.text) {
+					why = "text-anagram"
+				}
+				x.viol("wrong-callback-fired", why+seqTag, fmt.Sprintf("[%s] request %s/%s %q (native=%v) ran the callback registered for %s", adapter, req.table, req.kind, req.text, nativeOn, desc(ri)), wit)
+				return
+			}
+			if must >= 0 && fired < 0 {
+				x.viol("registered-callback-not-fired", req.kind+fmt.Sprintf("/after-create=%v", installAfterCreate)+seqTag, fmt.Sprintf("[%s] request %s/%s %q did not run the callback registered for %s (ran %v)", adapter, req.table, req.kind, req.text, desc(must), ranList), wit)
+				return
+			}
+			// outcome
+			cbVerdict := fired >= 0
+			switch req.kind {
+			case "key", "filter":
+				wantN := 0
+				if cbVerdict {
+					wantN = 1
+				}
+				if got.Class != adapt.ClsOK || len(got.Items) != wantN {
+					x.viol("verdict-not-used", req.kind+seqTag, fmt.Sprintf("[%s] %s %q: class %s, %d items; expected %d (callback fired: %v; built-in result false)", adapter, req.kind, req.text, got.Class, len(got.Items), wantN, cbVerdict), wit)
+				}
+			case "conditional":
+				want := adapt.ClsCondFailed
+				if cbVerdict {
+					want = adapt.ClsOK
+				}
+				if got.Class != want {
+					x.viol("verdict-not-used", req.kind+seqTag, fmt.Sprintf("[%s] conditional put %q: class %s, expected %s (callback fired: %v)", adapter, req.text, got.Class, want, cbVerdict), wit)
+				}
+			case "update":
+				switch {
+				case fired >= 0:
+					want := item.Clone()
+					want["cb"] = val.Str(fmt.Sprintf("cb%d", fired))
+					if got.Class != adapt.ClsOK || !val.ItemsEqual(after.Item, want) {
+						x.viol("mutation-not-used", "update", fmt.Sprintf("[%s] update %q: class %s, item %s; expected the registered updater's mutation %s", adapter, req.text, got.Class, after.Item.Canon(), want.Canon()), wit)
+					}
+				case nativeOn:
+					if got.Class != adapt.ClsUnsupported {
+						x.viol("missing-updater-not-unsupported", got.Class, fmt.Sprintf("[%s] update %q without registered updater in native mode: class %s, want the unsupported-feature error", adapter, req.text, got.Class), wit)
+					} else if !val.ItemsEqual(after.Item, item) {
+						x.viol("failed-update-touched-item", "update", fmt.Sprintf("[%s] update %q failed but the item changed to %s", adapter, req.text, after.Item.Canon()), wit)
+					}
+				default:
+					// built-in interpreter: the pool's updates are valid ("set x = :y" in lower case is not)
+					if strings.HasPrefix(strings.TrimSpace(req.text), "SET") {
+						if got.Class != adapt.ClsOK {
+							x.viol("builtin-fallback-failed", "update", fmt.Sprintf("[%s] update %q with native mode off: class %s", adapter, req.text, got.Class), wit)
+						}
+					}
+				}
+			}
+		}()
 	}
 }
 
@@ -351,7 +366,30 @@ func (p *c20) RunCase(ctx *runner.Ctx) runner.CaseResult {
 			adapter := adapt.Adapters[k%2]
 			nativeOn := (k/2)%4 != 0
 			after := (k/8)%2 == 0
-			p.runOne(x, adapter, regs, req, nativeOn, after, ctx)
+			// the request alone, and followed on the SAME client by its nearest neighbours: the same text
+			// and kind on the other table, the same text on the same table under another kind, and an
+			// anagram of the text (a lookup cache keyed too coarsely would show only on the second call)
+			seqs := [][]c20Req{{req}}
+			other := "tbb"
+			if req.table == "tbb" {
+				other = "tba"
+			}
+			if (si+ri)%3 == 0 {
+				seqs = append(seqs, []c20Req{req, {other, req.kind, req.text}})
+				if req.kind != "update" {
+					k2 := map[string]string{"key": "filter", "filter": "conditional", "conditional": "key"}[req.kind]
+					seqs = append(seqs, []c20Req{req, {req.table, k2, req.text}})
+					seqs = append(seqs, []c20Req{req, {req.table, req.kind, map[string]string{"a = :b": "b = :a", "b = :a": "a = :b"}[strings.TrimSpace(req.text)]}})
+				} else {
+					seqs = append(seqs, []c20Req{req, {req.table, req.kind, map[string]string{"SET x = :y": "SET y = :x", "SET y = :x": "SET x = :y"}[strings.TrimSpace(req.text)]}})
+				}
+			}
+			for _, sq := range seqs {
+				if sq[len(sq)-1].text == "" {
+					continue
+				}
+				p.runSeq(x, adapter, regs, sq, nativeOn, after, ctx)
+			}
 		}
 	}
 	if block%40 == 0 {
